@@ -696,6 +696,61 @@ func brokerConnGuard(repo string) (string, error) {
 	return "", fmt.Errorf("transport.go: (*connPool).sendRequest not found")
 }
 
+// searchPredicate translates the predicate of the sort.Search call in findMetadataTopic
+// (`func(i int) bool { return topics[i].Name >= topicName }`) and the final equality test into Lean over
+// `elem` (the i-th topic's name) and `target`.
+func searchPredicate(repo string) (pred, final string, err error) {
+	fset := token.NewFileSet()
+	f, perr := parser.ParseFile(fset, filepath.Join(repo, "transport.go"), nil, 0)
+	if perr != nil {
+		return "", "", perr
+	}
+	for _, d := range f.Decls {
+		fd, ok := d.(*ast.FuncDecl)
+		if !ok || fd.Body == nil || fd.Name.Name != "findMetadataTopic" {
+			continue
+		}
+		if len(fd.Type.Params.List) < 2 {
+			return "", "", fmt.Errorf("findMetadataTopic: unexpected signature")
+		}
+		target := fd.Type.Params.List[len(fd.Type.Params.List)-1].Names[0].Name
+		side := func(e ast.Expr) string {
+			if id, ok := e.(*ast.Ident); ok && id.Name == target {
+				return "target"
+			}
+			if sel, ok := e.(*ast.SelectorExpr); ok && sel.Sel.Name == "Name" {
+				if _, ok := sel.X.(*ast.IndexExpr); ok {
+					return "elem"
+				}
+			}
+			return ""
+		}
+		ops := map[token.Token]string{token.LSS: "<", token.GTR: ">", token.LEQ: "≤", token.GEQ: "≥", token.EQL: "=", token.NEQ: "≠"}
+		ast.Inspect(fd.Body, func(n ast.Node) bool {
+			switch x := n.(type) {
+			case *ast.FuncLit:
+				ast.Inspect(x.Body, func(m ast.Node) bool {
+					if b, ok := m.(*ast.BinaryExpr); ok && ops[b.Op] != "" && side(b.X) != "" && side(b.Y) != "" {
+						pred = side(b.X) + " " + ops[b.Op] + " " + side(b.Y)
+					}
+					return true
+				})
+				return false
+			case *ast.BinaryExpr:
+				if x.Op == token.EQL && side(x.X) != "" && side(x.Y) != "" {
+					final = side(x.X) + " = " + side(x.Y)
+				}
+			}
+			return true
+		})
+		if pred == "" || final == "" {
+			return "", "", fmt.Errorf("findMetadataTopic: search predicate / final test outside the translated subset")
+		}
+		return pred, final, nil
+	}
+	return "", "", fmt.Errorf("transport.go: findMetadataTopic not found")
+}
+
 func extractRouting(repo, root string) error {
 	keys, err := apiKeyConsts(repo)
 	if err != nil {
@@ -918,6 +973,12 @@ func extractRouting(repo, root string) error {
 		fmt.Fprintf(&b, "def leaderTopic_%s (topicFound : Bool) : Option LeaderErr :=\n  %s\n", a.pkg, ll.outer)
 		fmt.Fprintf(&b, "def leaderStep_%s (cur : Int) (part : Option Int) (bro : Int → Option Int) : Except LeaderErr Int :=\n  %s\n\n", a.pkg, ll.inner)
 	}
+	spred, sfinal, err := searchPredicate(repo)
+	if err != nil {
+		return err
+	}
+	b.WriteString("/-- transport.go findMetadataTopic: the predicate handed to sort.Search and the final test, over the i-th topic's\nname `elem` and the requested name `target` -/\n")
+	fmt.Fprintf(&b, "def searchPred (elem target : String) : Bool := decide (%s)\ndef searchHit (elem target : String) : Bool := decide (%s)\n\n", spred, sfinal)
 	cmp, err := updateCompare(repo)
 	if err != nil {
 		return err
